@@ -113,7 +113,7 @@ V2_COMMANDS = [c for c in V2_OF if c != "EEMSRead"]
 V3_ONLY = ["Normalize", "CvtFromFuzzy", "CvtToBinary", "NormalizeCat", "CvtToFuzzyZScore"]
 
 
-def renderings(case):
+def renderings(case, joiner=None):
     """-> (v2 text, v3 text, expected result names in order)"""
     model = case["model"]
     cmds = c12.model_commands(model)[2:]  # without the writers
@@ -162,6 +162,10 @@ def renderings(case):
             brk = {1: "\n(", 2: "  # arguments follow\n    ("}[st_["paren_break"]]
             v2_lines[-1] = v2_lines[-1].replace("(", brk, 1)
             v3_lines[-1] = v3_lines[-1].replace("(", brk, 1)
+    if joiner:
+        # the grammar asks for no line break between commands: several of them, or the whole file, on one line
+        glue = lambda lines: "".join(l + ((" " if joiner == "one_line" or k % 2 == 0 else "\n") if k < len(lines) - 1 else "\n") for k, l in enumerate(lines))
+        return glue(v2_lines), glue(v3_lines), names
     return "\n".join(v2_lines) + "\n", "\n".join(v3_lines) + "\n", names
 
 
@@ -191,6 +195,12 @@ def check_model(case, rec):
         from ..history import maybe_earlier_v2_load
 
         maybe_earlier_v2_load(v3_text)
+        v2_lined = v2_text
+        if case.get("joiner"):
+            v2_text, v3_text, _ = renderings(case, case["joiner"])
+            if case.get("numeric_columns"):
+                v2_text, v3_text = num(v2_text), num(v3_text)
+            rec.label("commands_share_lines:" + case["joiner"])
         try:
             p3 = Program.from_source(v3_text, libraries=EEMS_CSV_LIBRARIES, working_dir=tmp)
         except Exception as exc:
@@ -200,18 +210,18 @@ def check_model(case, rec):
             p2 = Program.from_source(v2_text, libraries=EEMS_CSV_LIBRARIES, working_dir=tmp)
         except Exception as exc:
             return [Failure("v2_load_raises:%s" % type(exc).__name__, "%s\n%s" % (sstr(exc)[:200], v2_text))]
-        mixed = any("=" in l.split("(")[0] for l in v2_text.splitlines())
-        if not any(l.split("(")[0].strip() in EEMS2 for l in v2_text.splitlines()):
+        mixed = any("=" in l.split("(")[0] for l in v2_lined.splitlines())
+        if not any(l.split("(")[0].strip() in EEMS2 for l in v2_lined.splitlines()):
             rec.label("file:no_bare_command")
-        omitted = any(l.startswith("READ(") and "NewFieldName" not in l for l in v2_text.splitlines())
-        outfile = "OutFileName" in v2_text and "ignored_" in v2_text
+        omitted = any(l.startswith("READ(") and "NewFieldName" not in l for l in v2_lined.splitlines())
+        outfile = "OutFileName" in v2_lined and "ignored_" in v2_lined
         rec.label("file:" + ("mixed" if mixed else "pure_v2"))
         if omitted:
             rec.label("read_without_new_field_name")
         if outfile:
             rec.label("out_file_name_dropped")
         if any(l.split("(", 1)[0] in EEMS2 and "NewFieldName" in l and "InFieldName =" in l
-               and l.index("NewFieldName") < l.index("InFieldName =") for l in v2_text.splitlines()):
+               and l.index("NewFieldName") < l.index("InFieldName =") for l in v2_lined.splitlines()):
             rec.label("new_field_name_before_in_field_name")
         if len(names) >= 3 and (omitted or outfile or mixed):
             rec.nontrivial_case(case)
@@ -264,6 +274,8 @@ def model_cases(draw):
             s_["assigned"] = True
             s_["omit_new_field"] = False
     case = {"model": model, "styles": styles, "name_style": draw(st.sampled_from([0, 0, 1, 2, 3, 4]))}
+    if draw(st.integers(0, 4)) == 0:
+        case["joiner"] = draw(st.sampled_from(["one_line", "pairs"]))
     if draw(st.integers(0, 3)) == 0:
         case["numeric_columns"] = True
         for s_ in styles:
